@@ -74,7 +74,7 @@ const (
 	c06FpRearm     = "restart-delivers-backlog-before-prestart"
 	c06FpUnserial  = "restart-unserialized:" // + what overlapped
 	c06FpSkipped   = "restart-skipped-shutdown:"
-	c06Cap         = 20 * time.Second
+	c06Cap         = 10 * time.Second
 	c06PkgPrefix   = "github.com/tochemey/goakt/v4/actor."
 	c06MaxLogLines = 400
 )
@@ -456,23 +456,13 @@ func c06Start(t *testing.T) {
 	})
 }
 
-// c06StopSystem stops a system without trusting Stop to return: the passivation
-// manager can livelock during shutdown (an expired entry whose tryPassivation keeps
-// returning false because the system is stopping is popped and re-pushed forever), in
-// which case ActorSystem.Stop never returns. Not this property: bounded wait.
-func c06StopSystem(sys ActorSystem) {
-	done := make(chan struct{})
-	go func() { _ = sys.Stop(context.Background()); close(done) }()
-	select {
-	case <-done:
-	case <-time.After(10 * time.Second):
-	}
-}
+func c06StopSystem(sys ActorSystem) { _ = sys.Stop(context.Background()) }
 
-// c06Alive: the system is up. A system can stop itself: a panic in one of its own
-// system actors (seen: GoAktDeathWatch dereferencing a tree node emptied by a
-// concurrent deleteNode) makes the system guardian shut everything down. That is not
-// part of this property; the harness replaces the system and does not judge the case.
+// c06Alive: the system is up. A system can stop itself when one of its own system
+// actors panics (the cause seen while this check was built, GoAktDeathWatch
+// dereferencing a tree node emptied by a concurrent deleteNode, was repaired by
+// 4a14b27). Every later case would silently run on a dead system, so the harness
+// replaces a stopped system and does not judge the case in which it died.
 func c06Alive(sys ActorSystem) bool { return sys.Running() && !sys.isStopping() }
 
 func c06WaitUntil(cond func() bool, limit time.Duration) bool {
@@ -872,10 +862,11 @@ func c06Judge(x *vfkit.X, c c06Case, evs []c06Ev) {
 					case k > 0 && r.enter > rearmAt:
 						// the Receive started after this restart had re-armed the behaviour stack
 						fp = c06FpRearm
-					case k > 0 && !clean && concurrentCalls(p):
+					case k > 0 && concurrentCalls(p):
 						// this Restart ran while another stop/restart call on the same actor was
-						// in progress: it found IsRunning()==false, skipped the shutdown and
-						// re-initialised the actor under the other call (listed: unserialised)
+						// in progress (listed: unserialised): it skipped the shutdown because
+						// IsRunning() was false, or its wait for the worker was defeated by the
+						// other restart's schedState.reset()
 						fp = c06FpUnserial + "prestart-overlaps-receive"
 					case k > 0 && !clean:
 						// the Receive was already running: Restart found the actor not running
@@ -964,11 +955,13 @@ func c06Judge(x *vfkit.X, c c06Case, evs []c06Ev) {
 					knownFP = c06FpRearm
 					continue
 				}
-				if c06OnTurnPath(P.path) && k > 0 && twoWorkers(p.enter, end) {
+				if c06OnTurnPath(P.path) && k > 0 && (r.g != P.g || twoWorkers(p.enter, end)) {
 					// this incarnation was started by Restart and two workers ran the actor at
-					// once (restartSubtree resets schedState to Idle under a worker that took the
-					// turn during re-initialisation): the overlapping Receive is the other
-					// worker's, not a failure of the on-turn stop
+					// once (restartSubtree resets schedState to Idle under a worker that holds
+					// the turn, the PostStart that follows schedules a second one): with a single
+					// worker no other goroutine can enter Receive while the turn owner is inside
+					// its own stop, so the Receive on the other goroutine is the second worker's,
+					// not a failure of the on-turn stop
 					fp := "restart-two-workers-on-one-actor"
 					if !x.Known(fp) {
 						fail(fp, "incarnation %d (started by Restart): two dispatcher workers run the actor concurrently; PostStop(%s) [%d,%s] on goroutine %d overlaps Receive(msg %d) [%d,%s] on goroutine %d", k+1, P.path, P.enter, c06TS(P.exit), P.g, r.msg, r.enter, c06TS(r.exit), r.g)
